@@ -57,6 +57,11 @@ CLAIMED = {
   note="Trusted: reference binder and chooser (props/c13.go), structural dump. Open finding C13-norev (revision-less + revisioned pair) is left out of random runs and replayed from known/. dir/... entries: weak oracle as documented in DESIGN.md.",
   ref="DESIGN.md §4 C13",
   tech="deterministic simulation: enumerated/seeded load orders, simulated disk with near-miss names and faults observed at the disk seam, split-vs-unsplit metamorphic runs under seeded schedules"),
+ "C19": dict(
+  text="Seeded search over interleavings of real caller goroutines running the -race built, instrumented library: (K1) 2-4 independent load+Process+dump pipelines, (K2) 2-6 readers of one processed set issuing the read operations the property lists, incl. simultaneous first-time namespace lookups. The simulated scheduler decides who proceeds at every lock acquisition/release and, with seeded probability, at every function entry and loop head; a task may be descheduled while holding a lock. Oracles: Go race detector (exit 66, attributed by the RUN protocol, confirmed in a fresh process), per-operation equality with the sequential result, bounded progress. Sampling of schedules, not proof.",
+  note="Trusted: the scheduler adds no happens-before edge (plain variables in //go:norace code + runtime.Gosched under GOMAXPROCS=1; probe 1 in DESIGN.md appendix A); the race detector's bounded history can miss a race in one schedule, never invent one; stdlib-internal synchronisation (sync.Pool in fmt) can hide a race, so Print is confined to a separate mix. Lookups of missing nodes are excluded (they write an error into the tree; the property speaks of existing nodes).",
+  ref="DESIGN.md §4 C19",
+  tech="deterministic simulation: seeded turn-based scheduler over real goroutines at AST-inserted lock/tick yield points, Go race detector as happens-before oracle, sequential results as reference"),
 }
 
 NA_PURE = {
